@@ -127,6 +127,42 @@ func guardMixin(c *Ctx) {
 					c.S.Decide(ok, "C17", "GUARD-PRIMARYWINS", fi.QName()+"/"+exprStr(lx.X), c.P.Pos(as.Pos()),
 						"stored only when the key is absent from the primary",
 						"store "+exprStr(l)+" is not guarded by the absence of that key in the same map: an entry of the primary (or of an earlier mixin) can be overwritten")
+				case *ast.StarExpr:
+					// a fill helper: *target = v where callers pass &primary.Field
+					po := core.ObjOf(info, lx.X)
+					pi, isParam := c.paramIndexOf(fi, po)
+					if po == nil || !isParam {
+						continue
+					}
+					fillsPrimary := false
+					for _, caller := range reach {
+						for _, call := range calls(caller.Decl.Body) {
+							if c.P.StaticCallee(caller, call) != fi.Obj || pi >= len(call.Args) {
+								continue
+							}
+							if u, ok := core.Unparen(call.Args[pi]).(*ast.UnaryExpr); ok && u.Op == token.AND {
+								if sel, ok := core.Unparen(u.X).(*ast.SelectorExpr); ok && c.paramRooted(caller, sel, 0) {
+									fillsPrimary = true
+								}
+							}
+						}
+					}
+					if !fillsPrimary {
+						continue
+					}
+					nFill++
+					ok := false
+					for _, cd := range c.conds(fi, as) {
+						if x, nonNil, isNil := core.NilTest(info, cd); isNil && !nonNil && sameExpr(x, lx) {
+							ok = true
+						}
+						if x, empty, isE := core.EmptyTest(info, cd); isE && empty && sameExpr(x, lx) {
+							ok = true
+						}
+					}
+					c.S.Decide(ok, "C17", "GUARD-FILLEMPTY", fi.QName()+"/*"+po.Name(), c.P.Pos(as.Pos()),
+						"the helper fills its target only when empty",
+						"the helper stores through "+exprStr(lx)+" (a field of the primary at its call sites) without testing that it is empty/nil: a value of the primary can be overwritten")
 				case *ast.SelectorExpr:
 					fv := core.FieldOf(info, lx)
 					if fv == nil || !c.paramRooted(fi, lx, 0) || fv.Pkg() == nil || fv.Pkg().Path() != core.SpecPath {
@@ -146,20 +182,27 @@ func guardMixin(c *Ctx) {
 						}
 						fallthrough
 					default:
+						takesField := func(e ast.Expr) bool {
+							call, ok := core.Unparen(e).(*ast.CallExpr)
+							if !ok {
+								return false
+							}
+							for _, a := range call.Args {
+								if sameExpr(a, lx) {
+									return true
+								}
+							}
+							return false
+						}
 						if rhs == nil {
 							// tuple assignment from a merge helper taking the same field: delegated
-							if len(as.Rhs) == 1 {
-								if call, ok := core.Unparen(as.Rhs[0]).(*ast.CallExpr); ok {
-									deleg := false
-									for _, a := range call.Args {
-										if sameExpr(a, lx) {
-											deleg = true
-										}
-									}
-									if deleg {
-										continue
-									}
-								}
+							if len(as.Rhs) == 1 && takesField(as.Rhs[0]) {
+								continue
+							}
+						} else if o := core.ObjOf(info, rhs); o != nil {
+							// the same through a local: merged, skipped := helper(primary.F, m.F); primary.F = merged
+							if defs := c.P.Locals(fi).Defs[o]; len(defs) == 1 && (defs[0].Kind == core.DefMulti || defs[0].Kind == core.DefAssign) && takesField(defs[0].Expr) {
+								continue
 							}
 						}
 						nFill++
